@@ -90,6 +90,26 @@ pub fn path_string(comp: BoxedStrategy<String>, max_comps: usize, max_dd: usize,
         .boxed()
 }
 
+/// `down/../../..[/tail]`: more ups than downs somewhere in the middle
+pub fn climbing(names: &'static [&'static str], max_dd: usize, allow_leading: bool) -> BoxedStrategy<String> {
+    (vec(select(names.to_vec()), 0..3), 1usize..=9, vec(select(names.to_vec()), 0..3), prop::bool::weighted(0.1), prop::bool::weighted(0.1))
+        .prop_map(move |(down, ups, tail, lead, trail)| {
+            let mut comps: Vec<&str> = down;
+            comps.extend(std::iter::repeat("..").take(ups.min(max_dd)));
+            comps.extend(tail);
+            let mut s = String::new();
+            if lead && allow_leading {
+                s.push('/');
+            }
+            s.push_str(&comps.join("/"));
+            if trail {
+                s.push('/');
+            }
+            cap_dotdots(&s, max_dd)
+        })
+        .boxed()
+}
+
 const SPECIAL_KEYS: &[&str] = &[
     "",
     ".",
@@ -114,7 +134,8 @@ const SPECIAL_KEYS: &[&str] = &[
 /// below `<PARENT>/outside` (≤ 1 `..`)
 pub fn free_string() -> BoxedStrategy<String> {
     prop_oneof![
-        6 => path_string(comp_any(), 8, 8, false),
+        5 => path_string(comp_any(), 8, 8, false),
+        1 => climbing(NAMES_ANY, 8, false),
         2 => path_string(comp_any(), 5, 1, false).prop_map(|s| format!("{PARENT_TOKEN}/outside/{s}")),
         1 => select(SPECIAL_KEYS.to_vec()).prop_map(str::to_string),
     ]
@@ -126,6 +147,7 @@ pub fn free_string() -> BoxedStrategy<String> {
 pub fn field_string(max_dd: usize) -> BoxedStrategy<String> {
     prop_oneof![
         3 => path_string(comp_any(), 5, max_dd, true),
+        2 => climbing(NAMES_ANY, max_dd, true),
         1 => select(NAMES_ANY.to_vec()).prop_map(str::to_string),
     ]
     .boxed()
@@ -135,7 +157,7 @@ pub fn field_string(max_dd: usize) -> BoxedStrategy<String> {
 pub fn endpoint_string() -> BoxedStrategy<String> {
     (
         prop_oneof![5 => Just(""), 1 => Just("v1/summary/"), 1 => Just("v1/certs/"), 1 => Just("v1/ocsp/"), 2 => Just("v1/products/"), 1 => Just("v1/summary")],
-        path_string(comp_endpoint(), 8, 8, true),
+        prop_oneof![3 => path_string(comp_endpoint(), 8, 8, true), 2 => climbing(NAMES_ENDPOINT, 8, true)],
     )
         .prop_map(|(p, s)| cap_dotdots(&format!("{p}{s}"), 8))
         .boxed()
